@@ -49,9 +49,15 @@ def literal (kind : String) (static_ : Bool) (toks : List Tok) : Option (String 
   | "ubig" | "ibig" =>
     let signed := kind == "ibig"
     let rt := rtIntStr (rtInt signed toks)
+    -- the mirror of the code's own loop + finish (`intNew`) must agree with the prescribed value
+    let mirror : Option Int := (intNew signed toks).map fun p => signedVal p.1 p.2
+    let chk (s : String) : String :=
+      if mirror = intLiteral signed toks then s else s ++ " !model-spec-mismatch code-mirror=" ++ (match mirror with
+        | some v => intToHex v
+        | none => "reject")
     match intLiteral signed toks with
-    | some v => some ("ok " ++ (intPath static_ v.natAbs).name ++ " " ++ intToHex v ++ " rt:" ++ rt, "ok " ++ intToHex v)
-    | none => some ("reject rt:" ++ rt, "reject")
+    | some v => some (chk ("ok " ++ (intPath static_ v.natAbs).name ++ " " ++ intToHex v ++ " rt:" ++ rt), "ok " ++ intToHex v)
+    | none => some (chk ("reject rt:" ++ rt), "reject")
   | "fbig" | "dbig" =>
     let binary := kind == "fbig"
     let rt := match rtFloat binary toks with
@@ -63,10 +69,12 @@ def literal (kind : String) (static_ : Bool) (toks : List Tok) : Option (String 
     | none => some ("reject rt:" ++ rt, "reject")
   | "rbig" =>
     let rt := rtRatStr toks
+    let chk (s : String) : String :=
+      if ratNew toks = ratLiteral toks then s else s ++ " !model-spec-mismatch code-mirror-differs"
     match ratLiteral toks with
     | some (q, relaxed) =>
-      some ("ok " ++ ratPathName static_ q ++ " " ++ qStr q relaxed ++ " rt:" ++ rt, "ok " ++ qStr q relaxed)
-    | none => some ("reject rt:" ++ rt, "reject")
+      some (chk ("ok " ++ ratPathName static_ q ++ " " ++ qStr q relaxed ++ " rt:" ++ rt), "ok " ++ qStr q relaxed)
+    | none => some (chk ("reject rt:" ++ rt), "reject")
   | _ => none
 
 def parseMode (m : String) : Option Bool :=
